@@ -546,7 +546,8 @@ ASMJIT_FAVOR_SIZE Error FormatterInternal::format_operand(
       ASMJIT_PROPAGATE(format_register(sb, flags, emitter, arch, m.index_type(), m.index_id()));
     }
 
-    if (m.has_offset()) {
+    // A post-index operand always shows its offset - `[x7], 0` (post-index form) is not `[x7]` (offset form).
+    if (m.has_offset() || (m.is_post_index() && !m.has_index())) {
       ASMJIT_PROPAGATE(sb.append(", "));
 
       int64_t off = int64_t(m.offset());
